@@ -791,3 +791,25 @@ def c14_instr_mask_storeu_byte_mask(r):
 
 def c14_instr_fmadd_broadcast_illtyped(r):
     return _c14(r, "mm256_fmadd_ps_broadcast", ("c_compile_error", "value"))
+
+
+# ---------------------------------------------------------------------------
+# C06
+
+
+def add_loop_guard_forwarding_one_level(r):
+    """add_loop(guard=True) wraps the block in `for: if:` with a single _wrap call, whose forwarding
+    descends one level only: statement cursors land on the new `if`, gaps may dangle"""
+    if r.get("property") != "C06" or r.get("op") != "add_loop":
+        return False
+    p, op, args, env = _ctx(r)
+    return args[3] is True
+
+
+def block_cursor_over_moved_statements(r):
+    """Block._forward_move asserts (or yields a block that misses a statement) for a block cursor that
+    spans statements moved by the rewrite"""
+    if r.get("property") != "C06" or r.get("op") not in ("reorder_stmts", "fission", "autofission", "lift_scope", "reorder_loops", "fuse", "lift_alloc", "autolift_alloc", "sink_alloc", "simplify", "eliminate_dead_code", "merge_writes"):
+        return False
+    pr = str((r.get("detail") or {}).get("problem"))
+    return pr.startswith("block forwarding raised AssertionError") or pr.startswith("block forwarding raised IndexError") or pr.startswith("forwarded block does not contain")
